@@ -50,6 +50,15 @@ H("protocol", "c18_validate_ok_implies", timeout=1500,
   bounds="parties 0..=3, insts 0..=3 (all opcodes, all u32 registers/party/input), max_reg_count 0..=3, outputs 0..=2, and_ops any usize, p_own/p_eval/p_out[i] any usize, |p_out| 0..=3",
   functions=["mpc::protocol::validate", "mpc::protocol::Context::new", "garble_lang::register_circuit::Circuit::validate"], panic_prop="C18")
 
+H("protocol", "c18_mpc_head_rejects_before_first_await", needs_segment=["mpc_head"],
+  what="the statements of _mpc() in front of its first .await already reject invalid party indices, input length and output set (i.e. rejection happens before any message can be sent)", bounds="valid 2-party XOR circuit; p_own/p_eval/p_out[i] any usize, |p_out|,|inputs| <= 3", functions=["mpc::protocol::_mpc (head segment up to the first await)", "mpc::protocol::validate"], panic_prop="C18")
+H("channel", "c08_recv_vec_len_check", needs_segment=["recv_vec_len_check"],
+  what="recv_vec_from: Ok iff received length == expected length", bounds="vectors of 0..=3 elements, any expected length", functions=["channel::recv_vec_from (segment after the receive)"], panic_prop="C08")
+H("channel", "c08_scatter_len_precheck", needs_segment=["scatter_len_precheck"],
+  what="scatter: the length pre-check never panics and lets the round start only with equal non-empty lengths", bounds="3 parties, per-party vectors of 0..=3 elements", functions=["channel::scatter (pre-check segment)"], panic_prop="C08")
+H("protocol", "c09_ip_pre_pattern_independent_of_shares", needs_segment=["ip_pre"],
+  what="2-safety: the Some/None pattern (and error behaviour) of the 'wire shares' messages is the same for any two sets of share values", bounds="n=3, own index 1, two Input instructions with symbolic owners", functions=["mpc::protocol::input_processing (segment before scatter)"], panic_prop="C08")
+
 # C01
 H("protocol", "c01_batch_sizes", what="random_shares_batch_size / and_share_batch_size through the real Context::new: 0 iff total 0, <= total, >= min(total,1000), <= 9 chunks, single batch up to 1000, len*bucket*3 cannot overflow",
   bounds="all input counts < 2^39 per party (2 parties), and_ops < 2^40", functions=["mpc::protocol::Context::new", "Context::random_shares_batch_size", "Context::and_share_batch_size", "mpc::faand::bucket_size"], panic_prop="C01")
@@ -96,10 +105,27 @@ for k, b_, tier, to in ((3, 2, "quick", 1500), (4, 2, "thorough", 2400), (3, 1, 
     H("protocol", f"c01_garbler_chunks_k{k}_b{b_}", tier=tier, timeout=to, needs_segment=["garbler_loop"],
       what="garble() garbler side: gate chunks sent to the evaluator == chunk_size_iter(and_ops, batch) (what the evaluator's receive loop expects)", bounds=f"{k} AND gates, batch size {b_} (live-in of the cut loop)", functions=["mpc::protocol::garble (garbler loop segment)", "mpc::protocol::chunk_size_iter"], panic_prop="C01", stubs=["send_to(..'preprocessed gates'..).await -> log of chunk lengths", "garble::encrypt -> Ok(empty)", "rand::random -> 0"])
 
+H("protocol", "c05_output_share_msg_n3", needs_segment=["output_share_msg"],
+  what="output-wire shares message for one recipient: Some only for output registers, payload == (own share bit, own MAC towards that recipient)", bounds="n=3, own index 0, 3 registers, output registers (2,0,2), recipient 1 or 2", functions=["mpc::protocol::output (message-building closure of the first send round)"], panic_prop="C08")
+H("protocol", "c05_output_lambda_msg_n3", needs_segment=["output_lambda_msg"],
+  what="evaluator's reveal message for one recipient: Some only for output registers, payload == (masked value, label of that recipient)", bounds="n=3, 3 registers, output registers (2,0,2), recipient 1 or 2", functions=["mpc::protocol::output (message-building closure of the 'lambda' round)"], panic_prop="C08")
+H("protocol", "c05_output_recipients", needs_segment=["output_share_recipients", "output_lambda_recipients"],
+  what="recipients of both send rounds of output() == members of p_out other than the party itself, each once", bounds="|p_out| <= 3, all usize entries, any p_own", functions=["mpc::protocol::output (recipient expressions of both send rounds)"], panic_prop="C08")
+H("protocol", "c07_ip_labels_one_label_per_wire", needs_segment=["ip_labels"],
+  what="garbler reveals exactly one label per input wire: label0 ^ masked bit * delta; nothing for other registers", bounds="3 registers, arbitrary Option pattern, labels/delta symbolic", functions=["mpc::protocol::input_processing (label selection segment)"], panic_prop="C08")
+
 # faand segments
 H("faand", "c04_check_dvalue_tail_n2_b3", needs_segment=["check_dvalue_tail"],
   what="d-value opening: Ok(d) => peer opened exactly as many d-bits and MACs as the bucket needs, every MAC verifies, d == own ^ peer; no inner length panics",
   bounds="n=2, one bucket of 3 triples (2 d-values), peer inner vector lengths 0..=3 free", functions=["mpc::faand::check_dvalue (segment after scatter)"], panic_prop="C08")
+H("faand", "c04_bcast_verify_tail_n3", needs_segment=["bcast_verify_tail"],
+  what="verified broadcast: Ok => every other party echoed exactly the hash of this party's own view of the third party's message", bounds="n=3, own index 0, arbitrary Option patterns and 128-bit hashes", functions=["mpc::faand::broadcast_verification (segment after scatter)"], panic_prop="C08")
+H("faand", "c04_flaand_tail_n2", needs_segment=["flaand_tail"],
+  what="leaky AND final check: Ok => XOR of all parties' H values == 0 for every triple", bounds="n=2, 2 triples, BLAKE3 verdicts arbitrary", functions=["mpc::faand::flaand (segment after the H broadcast)"], panic_prop="C08")
+H("faand", "c04_fabitn_check_n2", needs_segment=["fabitn_check"],
+  what="aBit check: Ok => opened MAC == XOR of the own keys selected by the coefficient bits ^ x*delta, for every combination", bounds="n=2, 2 combinations, 3 authenticated bits, all values symbolic", functions=["mpc::faand::fabitn (step 3c/3d segment)", "mpc::faand::chunked_update_with_rbits::<u128>"], panic_prop="C08")
+H("kos", "c04_kos_check", needs_segment=["kos_check"],
+  what="KOS correlation check: Ok => (check ^ x*s) == (t0, t1) (KOSConsistencyCheckFailed otherwise), with the carry-less product an arbitrary value", bounds="all 128-bit blocks", functions=["ot_core::kos::Sender::send_setup (segment after the receive)"], panic_prop="C08", stubs=["Block::clmul -> arbitrary (lo, hi) (textual substitution)"])
 H("faand", "c04_beaver_check_n2", needs_segment=["beaver_check"],
   what="Beaver derandomisation, check of the opened (d,e): Ok => BOTH MACs of every triple verify under the own keys; openings == own ^ peer", bounds="n=2, two triples", functions=["mpc::faand::beaver_aand (segment after scatter, MAC check + accumulation)"], panic_prop="C08")
 for de, tier in (("d0e0", "thorough"), ("d0e1", "quick"), ("d1e0", "quick"), ("d1e1", "quick")):
@@ -197,35 +223,35 @@ PROPS["C03"] = dict(
 
 PROPS["C04"] = dict(
     level="model_checking",
-    level_text="Bounded model checking of the detection branches of preprocessing at the receiving party (d-value MACs, aShare step 3c bit validity, aShare step 3d MAC-sum check, Beaver d/e MACs): Ok implies the checked relation, for every value a peer can send.",
-    level_note="Partial: detection branches only, n=2, cut segments with BLAKE3 verdicts arbitrary and the statistical parameter lowered to 2 inside the aShare segments. Not covered: commit-before-reveal and challenge-after-data orderings (message histories), KOS/aBit/LaAND checks, broadcast equivocation. " + SEG,
+    level_text="Bounded model checking of the detection branches of preprocessing at the receiving party (aBit check, aShare step 3c bit validity, aShare step 3d MAC-sum check, leaky-AND XOR check, d-value MACs, Beaver d/e MACs, verified-broadcast echo comparison, KOS correlation check): Ok implies the checked relation, for every value a peer can send.",
+    level_note="Partial: detection branches only (n=2, n=3 for the broadcast), cut segments with BLAKE3 verdicts and the carry-less product arbitrary and the statistical parameter lowered to 2 inside the aShare segments. Not covered: commit-before-reveal and challenge-after-data orderings (message histories), that the commitments bind (hash), coin-toss openings. " + SEG,
     explanation="Segment harnesses over check_dvalue, fashare (3c, 3d), beaver_aand.",
     outside="n=2; orderings over message histories and coin-toss reuse are outside the technique's reach.",
     assumptions=[FMT, TRACING, SEG, N2, "open_commitment(..) -> arbitrary bool inside the fashare_3d segment (textual substitution)", "RHO shadowed by a local const 2 inside the fashare segments"],
-    segments=["check_dvalue_tail", "fashare_3c", "fashare_3d", "beaver_check"],
-    harnesses=hs("c04_check_dvalue_tail_n2_b3", "c07_fashare_3c_n2", "c04_fashare_3d_n2", "c04_beaver_check_n2"),
+    segments=["check_dvalue_tail", "fashare_3c", "fashare_3d", "beaver_check", "bcast_verify_tail", "flaand_tail", "fabitn_check", "kos_check"],
+    harnesses=hs("c04_check_dvalue_tail_n2_b3", "c07_fashare_3c_n2", "c04_fashare_3d_n2", "c04_beaver_check_n2", "c04_bcast_verify_tail_n3", "c04_flaand_tail_n2", "c04_fabitn_check_n2", "c04_kos_check"),
 )
 
 PROPS["C05"] = dict(
     level="model_checking",
-    level_text="Bounded model checking of who is addressed with what: a non-output party gets an empty result from the opening; mask shares of input wires are addressed to the wire owner only.",
-    level_note="Partial: result side of output() and send side of input sharing. The recipients and payload of the two send rounds of output() are covered only if the output_sends harnesses are listed. " + SEG,
+    level_text="Bounded model checking of who is addressed with what: the recipient sets of both send rounds of output() are exactly p_out without the sender; the messages built for a recipient carry Some only at output registers and only that recipient's MAC / label; a non-output party gets an empty result; mask shares of input wires are addressed to the wire owner only.",
+    level_note="Partial: the message-building closures and recipient expressions of output() and the send side of input sharing, cut from the source. Not covered: that nothing else is sent after input processing by other code paths (whole-run traffic), n>3. " + SEG,
     explanation="Segment harnesses over output() tail and input_processing() head.",
     outside="n<=3; message order and the evaluator's 'lambda' round see harness list.",
     assumptions=[FMT, TRACING, SEG],
-    segments=["output_tail", "ip_pre"],
-    harnesses=hs("c05_output_tail_non_output_party_gets_nothing", "c05_ip_pre_n3"),
+    segments=["output_tail", "ip_pre", "output_share_msg", "output_lambda_msg", "output_share_recipients", "output_lambda_recipients"],
+    harnesses=hs("c05_output_tail_non_output_party_gets_nothing", "c05_ip_pre_n3", "c05_output_share_msg_n3", "c05_output_lambda_msg_n3", "c05_output_recipients"),
 )
 
 PROPS["C07"] = dict(
     level="model_checking",
-    level_text="Bounded model checking of the one place where an honest party opens a value that may be offset by its global key (aShare step 3c): the opened value is d0 ^ delta only for a claim whose MAC verifies under the own key.",
+    level_text="Bounded model checking of two places where a value offset by the global key leaves an honest party: the opening rule of aShare step 3c (d0 ^ delta only for a claim whose MAC verifies under the own key) and the input-label selection (exactly one label per wire, label0 ^ masked bit * delta).",
     level_note="Partial: decides the opening rule of aShare step 3c (n=2) - which is violated on the pinned tree (known finding). Not covered: secrecy against pooled views over whole runs, label hygiene in garble/evaluate, OT masks. " + SEG,
     explanation="Segment harness over fashare() step 3c.",
     outside="information-flow over whole executions is outside the technique's reach.",
     assumptions=[FMT, TRACING, SEG, N2, "RHO shadowed by a local const 2 inside the segment"],
-    segments=["fashare_3c"],
-    harnesses=hs("c07_fashare_3c_n2"),
+    segments=["fashare_3c", "ip_labels"],
+    harnesses=hs("c07_fashare_3c_n2", "c07_ip_labels_one_label_per_wire"),
 )
 
 PROPS["C08"] = dict(
@@ -235,8 +261,8 @@ PROPS["C08"] = dict(
     explanation="Kani/CBMC on utils::serde::deserialize and on all segment harnesses (generic CBMC failures are attributed to C08).",
     outside="byte strings of length 8, 9, 12 (18/25 in thorough); <= (N-8)/elem elements.",
     assumptions=[FMT, TRACING, SEG],
-    segments=["check_dvalue_tail", "fashare_3c", "fashare_3d", "ip_mid", "ip_post", "output_tail", "output_label_check", "beaver_check", "evaluate_and_arm"],
-    harnesses=by_prefix("c08_") + hs("c04_check_dvalue_tail_n2_b3", "c07_fashare_3c_n2", "c04_fashare_3d_n2", "c03_ip_mid_n2", "c03_ip_post_n2", "c02_output_tail_n2_regs11", "c03_output_label_check_n2_regs01", "c04_beaver_check_n2") + by_prefix("c03_evaluate_and_arm"),
+    segments=["check_dvalue_tail", "fashare_3c", "fashare_3d", "ip_mid", "ip_post", "output_tail", "output_label_check", "beaver_check", "evaluate_and_arm", "recv_vec_len_check", "scatter_len_precheck", "bcast_verify_tail", "flaand_tail", "fabitn_check", "kos_check", "ip_labels", "output_share_msg", "output_lambda_msg", "ip_pre"],
+    harnesses=by_prefix("c08_") + hs("c09_ip_pre_pattern_independent_of_shares", "c04_check_dvalue_tail_n2_b3", "c07_fashare_3c_n2", "c04_fashare_3d_n2", "c03_ip_mid_n2", "c03_ip_post_n2", "c02_output_tail_n2_regs11", "c03_output_label_check_n2_regs01", "c04_beaver_check_n2", "c04_bcast_verify_tail_n3", "c04_flaand_tail_n2", "c04_fabitn_check_n2", "c04_kos_check", "c05_output_share_msg_n3", "c05_output_lambda_msg_n3", "c07_ip_labels_one_label_per_wire") + by_prefix("c03_evaluate_and_arm"),
 )
 
 PROPS["C09"] = dict(
@@ -247,6 +273,7 @@ PROPS["C09"] = dict(
     outside="vector lengths <= 3; fixed Option pattern per query.",
     assumptions=[FMT, TRACING],
     harnesses=by_prefix("c09_"),
+    segments=["ip_pre"],
 )
 
 PROPS["C10"] = dict(
@@ -273,12 +300,12 @@ PROPS["C11"] = dict(
 PROPS["C18"] = dict(
     level="model_checking",
     level_text="Bounded model checking of the real validate() through the real Context::new over a fully symbolic circuit description and argument tuple: no panic, and Ok implies every documented argument condition; plus panic-freedom of input sharing for misplaced Input instructions.",
-    level_note="Trusted: Kani's MIR->goto translation and CBMC; size bounds (<=3 parties/instructions, <=2 outputs), all index values full width. 'before sending any message' rests on _mpc calling validate before its first await (textual check recorded in evidence).",
+    level_note="Trusted: Kani's MIR->goto translation and CBMC; size bounds (<=3 parties/instructions, <=2 outputs), all index values full width. 'before sending any message' is decided on the statements of _mpc() in front of its first await (cut from the source).",
     explanation="Kani/CBMC on protocol::validate + input_processing head segment.",
     outside="parties<=3, input_regs[p]<=2, <=3 instructions, max_reg_count<=3, <=2 output regs, |inputs|<=3, |p_out|<=3.",
     assumptions=[FMT, TRACING, SEG],
-    segments=["ip_pre"],
-    harnesses=hs("c18_validate_ok_implies", "c05_ip_pre_n3"),
+    segments=["ip_pre", "mpc_head"],
+    harnesses=hs("c18_validate_ok_implies", "c05_ip_pre_n3", "c18_mpc_head_rejects_before_first_await"),
 )
 
 PROPS["C20"] = dict(
